@@ -14,11 +14,15 @@ for a in args:
         name = "%s-%s" % (pid, a)
 work = "/tmp/seedwork_%s" % pid
 dst = "/verif/seeded/%s" % name
+RETEST = not os.path.isdir(work)      # re-test of a stored seed: use the stored copy
+if RETEST:
+    work = dst
 assert subprocess.run(["git", "-C", "/repo", "status", "--porcelain"], capture_output=True, text=True).stdout.strip() == "", "/repo not clean"
 os.makedirs(dst, exist_ok=True)
 for f in ("patch.diff", "demo.sh", "meta.json"):
-    shutil.copy(os.path.join(work, f), dst)
-if os.path.isdir(os.path.join(work, "demo")):
+    if not RETEST:
+        shutil.copy(os.path.join(work, f), dst)
+if not RETEST and os.path.isdir(os.path.join(work, "demo")):
     shutil.rmtree(os.path.join(dst, "demo"), ignore_errors=True)
     shutil.copytree(os.path.join(work, "demo"), os.path.join(dst, "demo"))
 env = dict(os.environ, GOFLAGS="-mod=mod", GOPROXY="off")
@@ -58,6 +62,15 @@ if ok.returncode == 0:
         shutil.rmtree("/verif/evidence", ignore_errors=True)
         shutil.copytree("/tmp/evidence_backup", "/verif/evidence")
 meta = json.load(open(os.path.join(dst, "meta.json")))
+if RETEST:
+    old = meta.get("confirmation", {})
+    if not res.get("patch_applies"):
+        print("RETEST: patch no longer applies (%s); stored confirmation kept" % res.get("applies_msg", "").strip()[:120])
+        sys.exit(0)
+    merged = dict(old.get("checks", {}))
+    merged.update(res.get("checks", {}))
+    res["checks"] = merged
+    res["retested"] = True
 meta["confirmation"] = res
 json.dump(meta, open(os.path.join(dst, "meta.json"), "w"), indent=1)
 print(json.dumps(res, indent=1)[:1500])
